@@ -7,7 +7,7 @@ PID = "C01"
 
 def run(tier: str, seed: int) -> Report:
     sc = c01.scope(tier)
-    rep = Report(property_id=PID, level="exploration")
+    rep = Report(property_id=PID, level="other")
     rep.exhaustive = False
     rep.rule = (
         "cases = (pipeline, data set): every chain of %s public operators after table d from the typed enumerator "
